@@ -31,21 +31,21 @@ const (
 var kindNames = []string{"start", "hit", "lock", "os", "net", "crash"}
 
 type Task struct {
-	Key    string
-	Node   string
-	goid   uint64
-	rel    chan int // 0 = go on, 1 = die
-	parked bool
-	kind   int
-	site   int
-	lock   any
-	write  bool
-	done   bool
-	dying  bool
-	client bool
-	hits   int
-	delays int // window delays already spent on this task
-	holds  int // lock holds already spent on this task
+	Key       string
+	Node      string
+	goid      uint64
+	rel       chan int // 0 = go on, 1 = die
+	parked    bool
+	kind      int
+	site      int
+	lock      any
+	write     bool
+	done      bool
+	dying     bool
+	client    bool
+	hits      int
+	delays    int // window delays already spent on this task
+	holds     int // lock holds already spent on this task
 	stallStep int // > 0: not enabled before the scheduler's step counter reaches this value
 
 	blockedSince time.Time // first moment the task was found disabled (zero: not blocked)
@@ -85,11 +85,11 @@ type Sim struct {
 	seed uint64
 
 	// preemption
-	pPre          uint64 // threshold out of 1<<32 for hash-derived preemption
-	explicitPre   bool
-	preSet        []preemptPoint
-	firedPre      []preemptPoint
-	pSwitchNum    int // scheduler picks a non-default task with probability pSwitchNum/100
+	pPre        uint64 // threshold out of 1<<32 for hash-derived preemption
+	explicitPre bool
+	preSet      []preemptPoint
+	firedPre    []preemptPoint
+	pSwitchNum  int // scheduler picks a non-default task with probability pSwitchNum/100
 	// Window delays: a task that has just given up a lock ("unlocked" sites) is, at a per-run subset of those sites
 	// (1 in pDelayDen, a pure function of the seed and the site), held back for delayFor of simulated time while every
 	// other task runs on. Uniform preemption almost never keeps a task parked long enough for another task to finish
@@ -99,9 +99,9 @@ type Sim struct {
 	// Lock holds: the dual. At a per-run subset (1 in pHoldDen) of the statements that directly follow a Lock/RLock, a
 	// task is held back for holdFor while it HOLDS the lock: everybody else meets a busy lock for as long as they can
 	// run (code that treats "busy" as "somebody else is doing my work", TryLock shortcuts, needs exactly this).
-	pHoldDen int
-	holdFor  time.Duration
-	stallSteps int // > 0: half of the window delays are measured in scheduling steps of the other tasks (1..stallSteps)
+	pHoldDen      int
+	holdFor       time.Duration
+	stallSteps    int // > 0: half of the window delays are measured in scheduling steps of the other tasks (1..stallSteps)
 	pStallNum     int // probability (per 1000) that an enabled task is stalled for a quantum
 	writerPending bool
 
@@ -113,7 +113,7 @@ type Sim struct {
 	start     time.Time
 	steps     int
 	switches  int
-	fp        uint64 // schedule fingerprint
+	fp        uint64   // schedule fingerprint
 	trace     []string // tail of the trace
 	traceH    uint64   // running hash of the whole trace
 	traceN    int
